@@ -269,3 +269,58 @@ def load_known():
 
 
 load_known.thorough_only = set()
+
+
+class Buffer:
+    """holds back the verdicts of one rule run so that the run can be repeated on a second reading of the same functions (astutil.inline_aliases) before anything is
+    reported: everything else (extra, saw, floors) goes straight to the report"""
+
+    def __init__(self, rep):
+        self._rep, self._calls, self.nviol, self.nunrec = rep, [], 0, 0
+
+    def __getattr__(self, k):
+        return getattr(self._rep, k)
+
+    def ok(self, *a, **k):
+        self._calls.append(("ok", a, k))
+
+    def violate(self, *a, **k):
+        self.nviol += 1
+        self._calls.append(("violate", a, k))
+
+    def unrec(self, *a, **k):
+        self.nunrec += 1
+        self._calls.append(("unrec", a, k))
+
+    def replay(self):
+        for kind, a, k in self._calls:
+            getattr(self._rep, kind)(*a, **k)
+
+
+def second_reading(rep, funcs, run):
+    """run(rep_like) once; if it reports anything, run it again with the nodes of `funcs` replaced by their alias-inlined view and keep the second outcome when it is
+    clean - a local that merely names a plain read is not a reason for a report.  The first outcome is kept in every other case."""
+    from sa.astutil import inline_aliases
+    b1 = Buffer(rep)
+    run(b1)
+    if not (b1.nviol or b1.nunrec):
+        b1.replay()
+        return
+    saved = []
+    for f in funcs:
+        v = inline_aliases(f.node)
+        if v is not None:
+            saved.append((f, f.node))
+            f.node = v
+    if not saved:
+        b1.replay()
+        return
+    b2 = Buffer(rep)
+    try:
+        run(b2)
+    except Exception:
+        b2.nunrec += 1
+    finally:
+        for f, node in saved:
+            f.node = node
+    (b1 if (b2.nviol or b2.nunrec) else b2).replay()
